@@ -130,6 +130,7 @@ type termKey struct {
 
 // TermStore is per worker (no locking).
 type TermStore struct {
+	varsOf map[uint32][]uint32 // term ID -> sorted var IDs (memo)
 	tab   map[termKey]*Term
 	next  uint32
 	True  *Term
@@ -139,7 +140,7 @@ type TermStore struct {
 }
 
 func NewTermStore() *TermStore {
-	ts := &TermStore{tab: map[termKey]*Term{}, next: 1, ufs: map[string]string{}}
+	ts := &TermStore{tab: map[termKey]*Term{}, next: 1, ufs: map[string]string{}, varsOf: map[uint32][]uint32{}}
 	ts.True = ts.mk(&Term{Op: OConst, S: SBool, C: 1})
 	ts.False = ts.mk(&Term{Op: OConst, S: SBool, C: 0})
 	return ts
@@ -1092,3 +1093,51 @@ func (ts *TermStore) rebuild(t *Term, a [3]*Term) *Term {
 }
 
 var _ = bits.Len
+
+// VarsOf returns the sorted IDs of the variables occurring in t.
+func (ts *TermStore) VarsOf(t *Term) []uint32 {
+	if t.Op == OConst {
+		return nil
+	}
+	if v, ok := ts.varsOf[t.ID]; ok {
+		return v
+	}
+	var out []uint32
+	if t.Op == OVar {
+		out = []uint32{t.ID}
+	} else {
+		for i := 0; i < int(t.N); i++ {
+			out = mergeSorted(out, ts.VarsOf(t.A[i]))
+		}
+	}
+	ts.varsOf[t.ID] = out
+	return out
+}
+
+func mergeSorted(a, b []uint32) []uint32 {
+	if len(a) == 0 {
+		return b
+	}
+	if len(b) == 0 {
+		return a
+	}
+	out := make([]uint32, 0, len(a)+len(b))
+	i, j := 0, 0
+	for i < len(a) && j < len(b) {
+		switch {
+		case a[i] < b[j]:
+			out = append(out, a[i])
+			i++
+		case a[i] > b[j]:
+			out = append(out, b[j])
+			j++
+		default:
+			out = append(out, a[i])
+			i++
+			j++
+		}
+	}
+	out = append(out, a[i:]...)
+	out = append(out, b[j:]...)
+	return out
+}
